@@ -201,6 +201,16 @@ func vfConformSync() {
 	var flag atomic.Bool
 	flag.Store(true)
 	vfObserve("flag", flag.Load())
+	var av atomic.Value
+	vfObserve("av-empty", av.Load() == nil)
+	av.Store([]int{1, 2})
+	vfObserve("av", fmt.Sprint(av.Load()))
+	old := av.Swap([]int{3})
+	vfObserve("av-swap", fmt.Sprint(old, av.Load()))
+	pool := sync.Pool{New: func() any { return new(int) }}
+	pi := pool.Get().(*int)
+	*pi = 41
+	vfObserve("pool-new", *pi)
 	var ap atomic.Pointer[int]
 	x := 5
 	ap.Store(&x)
